@@ -31,11 +31,14 @@ int main(int argc, char **argv) {
     std::cout << ", \"stops\": [";
     bool first = true; size_t maxdata = 0, maxdepth = 0;
     auto views = [&]() { std::cout << "["; bool f2 = true; for (auto &a : vm.getActivations()) { std::cout << (f2 ? "" : ", ") << "{"; bool f3 = true; for (auto &kv : a.getActivationVariables()) { std::cout << (f3 ? "" : ", ") << "\"" << esc(kv.first) << "\": " << kv.second; f3 = false; } std::cout << "}"; f2 = false; } std::cout << "]"; };
-    while (!vm.isDone() && steps < maxsteps) {
-      bool stop = false;
-      while (!stop && steps < maxsteps) { stop = vm.executeSingle(); steps++; if (vm.data.size() > maxdata) maxdata = vm.data.size(); if (vm.stack.size() > maxdepth) maxdepth = vm.stack.size(); }
-      if (!stop) break;
-      if (vm.isDone()) break;
+    // a stop is recorded whenever executeSingle() reports one for a breakpoint instruction (also for the site directly before HALT)
+    while (steps < maxsteps) {
+      Theo::OpCode op = vm.code.code[vm.instruction_pointer].op;
+      if (op == Theo::OpCode::HALT) break;
+      bool stop = vm.executeSingle(); steps++;
+      if (vm.data.size() > maxdata) maxdata = vm.data.size();
+      if (vm.stack.size() > maxdepth) maxdepth = vm.stack.size();
+      if (!stop) continue;
       Theo::BreakPoint bp = vm.getCurrentBreak();
       std::cout << (first ? "" : ", ") << "{\"file\": \"" << esc(bp.file) << "\", \"line\": " << bp.line << ", \"views\": "; views(); std::cout << "}"; first = false;
     }
